@@ -94,119 +94,137 @@ def sorted_events(evs):
 
 
 class _Walker:
-    __slots__ = ('h', 'seen', 'n', 'trace')
+    '''Emits a flat token list; the digest is blake2b of the joined tokens.'''
+    __slots__ = ('out', 'seen', 'n')
 
-    def __init__(self, trace=None):
-        self.h = hashlib.blake2b(digest_size=16)
+    def __init__(self):
+        self.out = []
         self.seen = {}
         self.n = 0
-        self.trace = trace
-
-    def emit(self, s):
-        if self.trace is not None:
-            self.trace.append(s if isinstance(s, str) else repr(s))
-        self.h.update(s.encode() if isinstance(s, str) else s)
-        self.h.update(b'\x00')
 
     def walk(self, o):
-        emit = self.emit
-        if o is None or isinstance(o, bool):
-            emit(repr(o))
+        out = self.out
+        t = type(o)
+        if t is str:
+            out.append('S' + o)
+            return
+        if t is int:
+            out.append('N' + (repr(float(o)) if -9007199254740992 < o < 9007199254740992 else repr(o)))
+            return
+        if t is float:
+            out.append('N' + repr(o))
+            return
+        if o is None or t is bool:
+            out.append(repr(o))
+            return
+        if t is list or t is tuple:
+            out.append('[' if t is list else '(')
+            walk = self.walk
+            for x in o:
+                walk(x)
+            out.append(']')
+            return
+        if t is dict:
+            out.append('{')
+            keys = list(o)
+            for k in keys:
+                tk = type(k)
+                if not (tk is str or tk is int or tk is float or tk is tuple or k is None or tk is bool):
+                    break
+            else:
+                if len(keys) > 1:
+                    try:
+                        keys.sort()
+                    except TypeError:
+                        keys.sort(key=repr)
+            walk = self.walk
+            for k in keys:
+                walk(k)
+                out.append(':')
+                walk(o[k])
+            out.append('}')
             return
         if isinstance(o, enum.Enum):
-            emit('E' + fnum(o.value))
+            out.append('E' + fnum(o.value))
             return
-        if isinstance(o, (int, float)):
-            emit('N' + fnum(o))
+        if isinstance(o, (int, float)):      # numpy scalars, subclasses
+            out.append('N' + repr(float(o)))
             return
-        if isinstance(o, (str, bytes)):
-            emit('S' + repr(o))
+        if isinstance(o, bytes):
+            out.append('Y' + repr(o))
             return
         oid = id(o)
         idx = self.seen.get(oid)
         if idx is not None:
-            emit(f'@{idx}')
-            return
-        if isinstance(o, (list, tuple)):
-            # lists can be shared/aliased but sharing of plain containers is
-            # never semantically relevant in this code base; do not index them
-            emit('[' if isinstance(o, list) else '(')
-            for x in o:
-                self.walk(x)
-            emit(']')
+            out.append('@%d' % idx)
             return
         if isinstance(o, (set, frozenset)):
-            emit('{s')
+            out.append('{s')
             for x in sorted(o, key=repr):
                 self.walk(x)
-            emit('}')
+            out.append('}')
             return
-        if isinstance(o, dict):
-            emit('{')
-            keys = list(o.keys())
-            if all(isinstance(k, _PRIMS) or isinstance(k, tuple) for k in keys):
-                keys.sort(key=repr)
-            for k in keys:
-                self.walk(k)
-                emit(':')
-                self.walk(o[k])
-            emit('}')
-            return
-        if isinstance(o, types.MethodType):
-            emit('bm' + o.__func__.__name__)
+        if t is types.MethodType:
+            out.append('bm' + o.__func__.__name__)
             self.walk(o.__self__)
             return
-        if isinstance(o, functools.partial):
-            emit('partial')
+        if t is functools.partial:
+            out.append('partial')
             self.walk(o.func)
             self.walk(o.args)
             self.walk(o.keywords)
             return
         if isinstance(o, (types.FunctionType, types.BuiltinFunctionType, type)):
-            emit('fn' + getattr(o, '__module__', '') + '.' + getattr(o, '__qualname__', repr(o)))
+            out.append('fn' + getattr(o, '__module__', '') + '.' + getattr(o, '__qualname__', repr(o)))
             return
+        if isinstance(o, (list, tuple, dict)):
+            raise TypeError(f'canon: unsupported container subclass {t}')
         # generic object
         self.seen[oid] = self.n
-        emit(f'<{type(o).__name__}#{self.n}')
+        out.append('<%s#%d' % (t.__name__, self.n))
         self.n += 1
-        if isinstance(o, Environment):
+        if t is Environment:
             self._env(o)
         else:
-            skip = _EVENT_SKIP if isinstance(o, Event) else getattr(type(o), '_canon_skip', ())
+            skip = _EVENT_SKIP if t is Event else getattr(t, '_canon_skip', ())
             d = getattr(o, '__dict__', None)
             if d is None:
-                emit(repr(o))
+                out.append(repr(o))
             else:
+                walk = self.walk
                 for k in sorted(d):
                     if k in skip:
                         continue
-                    emit('.' + k)
-                    self.walk(d[k])
-        emit('>')
+                    out.append('.' + k)
+                    walk(d[k])
+        out.append('>')
 
     def _env(self, env):
-        emit = self.emit
+        out = self.out
         d = env.__dict__
         for k in sorted(d):
             if k == '_events':
-                emit('._events')
+                out.append('._events')
                 for e in sorted_events(d[k]):
                     self.walk(e)
             elif k == '_paused_events':
-                emit('._paused')
+                out.append('._paused')
                 for e in sorted(d[k], key=lambda e: repr(event_key(e))):
                     self.walk(e)
             elif k == 'step':
                 continue  # E2 instance override
             else:
-                emit('.' + k)
+                out.append('.' + k)
                 self.walk(d[k])
+
+    def digest(self):
+        return hashlib.blake2b('\x00'.join(self.out).encode(), digest_size=16).digest()
 
 
 def digest(root):
     w = _Walker()
     w.walk(root)
-    return w.h.digest()
+    return w.digest()
 
 
 def digest_hex(root):
@@ -215,7 +233,6 @@ def digest_hex(root):
 
 def dump(root):
     '''Token list of the canonical form (debugging aid: diff two of them).'''
-    t = []
-    w = _Walker(t)
+    w = _Walker()
     w.walk(root)
-    return t
+    return w.out
